@@ -44,14 +44,21 @@ class WakeResult:
         self.early = early  # what was written before the destination's own wake
 
 
-def wake(s: Session, version: str):
+def wake(s: Session, version: str, echo_of: tuple | None = None):
     """Traffic that is not the destination's wake (its own reports, the bystander's wake), then the next
     wake of the destination. Under 1.x a wake can only exist after a 2.2 version report."""
     if not R.is2x(version):
         s.line("0;255;3;0;2;2.2.0")
         version = "2.2"
     early = []
-    for line in (f"{NODE};3;1;0;2;r", f"{NODE};255;3;0;0;50", f"{NODE};3;0;0;3;again", f"{BYSTANDER};255;3;0;{R.wake_type(version)};0", f"{BYSTANDER};3;1;0;2;r"):
+    node = s.gateway.nodes.get(NODE)
+    if node is not None:
+        node.reboot = True  # the application has asked for a reboot of the destination (public flag)
+    traffic = [f"{NODE};3;1;0;2;r", f"{NODE};255;3;0;0;50", f"{NODE};3;0;0;3;again", f"{BYSTANDER};255;3;0;{R.wake_type(version)};0", f"{BYSTANDER};3;1;0;2;r"]
+    if echo_of is not None and echo_of[2] == 1:
+        # the destination echoes an older command for the same child and value type (ack flag set)
+        traffic.insert(1, f"{echo_of[0]};{echo_of[1]};1;1;{echo_of[4]};older")
+    for line in traffic:
         early += s.line(line).writes
     out = s.line(f"{NODE};255;3;0;{R.wake_type(version)};0")
     return WakeResult(out.writes, early)
@@ -102,7 +109,7 @@ def check_case(version: str, f: tuple, buf, dest: str) -> list:
     if dest == "unknown":
         bad("silently-discarded", "returned normally, wrote nothing, and the destination is not a known node (no wake can release it)")
         return viols
-    w = wake(s, version)
+    w = wake(s, version, f)
     n = w.writes.count(line)
     if line in w.early:
         bad("released-by-other-traffic", f"held, but written before the destination's own wake (by its non-wake reports or another node's wake): {w.early}")
@@ -161,7 +168,7 @@ def sequences() -> list:
     a = (NODE, 3, 1, 0, 2, "v")
     b = (NODE, 3, 1, 0, 2, "w")
     c = (NODE, 3, 1, 0, 3, "v")
-    i1 = (NODE, 255, 3, 0, 13, "")
+    i1 = (NODE, 255, 3, 0, 13, "x")  # (not the empty payload: that is the gateway's own reboot reaction)
     i2 = (NODE, 255, 3, 0, 6, "M")
     r = (NODE, 3, 2, 0, 2, "")
     p = (NODE, 3, 0, 0, 3, "d")
